@@ -28,7 +28,7 @@ ASSUMPTIONS = ["RFC 9380 model vf/model/h2c.py, anchored by the RFC J.9.1/J.10.1
 ENGINE = "hypothesis"
 TECHNIQUE = ("differential property-based testing (Hypothesis) against a straight-line RFC 9380 model anchored by the RFC vectors")
 _REQ = ["map:G1:branch=x1", "map:G1:branch=x2", "map:G2:branch=x1", "map:G2:branch=x2", "map:G1:exceptional",
-        "map:G2:exceptional", "map:G2:u_re=0", "map:G2:u_im=0", "map:G1:sgn0(u)=1", "map:G2:sgn0(u)=1",
+        "map:G2:exceptional", "map:G2:u_re=0", "map:G2:u_im=0", "map:G2:fq_object_coefficients", "map:G1:sgn0(u)=1", "map:G2:sgn0(u)=1",
         "h2c:G1:dst_len=255", "h2c:G2:dst_len=255", "h2c:G1:dst_len=0", "h2c:G2:dst_len=0",
         "h2c:G2:hash=sha512", "h2c:G1:hash=sha512"]
 REQUIRED_LABELS = {"quick": _REQ, "thorough": _REQ}
@@ -41,9 +41,11 @@ def selfcheck():
         raise HarnessError("model: G2 unexpectedly has non-zero exceptional u")
 
 
-def _lib_el(g, u):
+def _lib_el(g, u, fq_coeffs=False):
     m = bc.OB()
-    return m.FQ(u) if g == "G1" else m.FQ2(list(u))
+    if g == "G1":
+        return m.FQ(u)
+    return m.FQ2([m.FQ(c) for c in u]) if fq_coeffs else m.FQ2(list(u))
 
 
 def o_map(ctx, case):
@@ -57,7 +59,9 @@ def o_map(ctx, case):
     F = S.F
     (xp, yp), info = S.sswu(u)
     want = S.iso_map((xp, yp))
-    lu = _lib_el(g, u)
+    lu = _lib_el(g, u, bool(case.get("fq_coeffs")))
+    if case.get("fq_coeffs") and g == "G2":
+        ctx.label("map:G2:fq_object_coefficients")
     swu = ob.optimized_swu_G1 if g == "G1" else ob.optimized_swu_G2
     iso = ob.iso_map_G1 if g == "G1" else ob.iso_map_G2
     mp = lh.map_to_curve_G1 if g == "G1" else lh.map_to_curve_G2
@@ -136,7 +140,8 @@ def s_u(g):
         return st.one_of(st.sampled_from(SPECIAL + tuple(exc)), uniform_int(0, P - 1), uniform_int(0, P - 1),
                          st.integers(0, 1 << 16)).map(lambda u: {"g": "G1", "u": u})
     comp = st.one_of(st.sampled_from(SPECIAL), st.just(0), uniform_int(0, P - 1), uniform_int(0, P - 1))
-    return st.tuples(comp, comp).map(lambda t: {"g": "G2", "u": [t[0], t[1]]})
+    return st.tuples(comp, comp, st.sampled_from([False, False, True])).map(
+        lambda t: {"g": "G2", "u": [t[0], t[1]], "fq_coeffs": t[2]})
 
 
 def s_h2c(g, big):
@@ -153,7 +158,7 @@ def _u_examples(g):
     if g == "G1":
         return [{"g": g, "u": u} for u in SPECIAL + tuple(h2c.exceptional_us("G1"))]
     vals = (0, 1, P - 1, 2, (P - 1) // 2, (P + 1) // 2)
-    return [{"g": g, "u": [a, b]} for a in vals for b in vals]
+    return [{"g": g, "u": [a, b], "fq_coeffs": fq} for a in vals for b in vals for fq in (False, True)]
 
 
 def t_map(ctx, g, shard, n):
